@@ -195,10 +195,17 @@ func (c *Conn) clientHandshake(ctx context.Context) (err error) {
 	// 首次发送 ClientHello（cookie=""），收到 HelloVerifyRequest 后保存 cookie 并重发。
 	var serverHello *serverHelloMsg
 
+	// newHello：ClientHello 内容有变化（首次发送、加入 cookie）时才分配新的 message_seq 并重新编码；
+	// 超时或对端重传触发的重发必须与原报文逐字节一致，否则双方对 ClientHello 的握手摘要不同，
+	// Finished 校验必然失败。
+	newHello := true
 	for {
 		c.hsState.Store(int32(stateSending))
-		hello.setMessageSeq(c.messageSeq)
-		c.messageSeq++
+		if newHello {
+			hello.setMessageSeq(c.messageSeq)
+			c.messageSeq++
+			newHello = false
+		}
 
 		// 写入 ClientHello，不加入 transcript
 		if _, err = c.writeHandshakeRecord(hello, nil); err != nil {
@@ -245,6 +252,7 @@ func (c *Conn) clientHandshake(ctx context.Context) (err error) {
 				// 正常 cookie 交换：保存 cookie
 				hello.cookie = append([]byte(nil), m.cookie...)
 				hello.raw = nil // 强制重新 marshaling
+				newHello = true
 				c.handBuf.Reset()
 				c.hsState.Store(int32(stateSending))
 				resend = true
